@@ -46,7 +46,13 @@ SPECIAL = ["&", "<", ">", '"', "'", "&amp;", "&#65;", "]]>", "<![CDATA[", "<!--"
 WS = [" ", "  ", "   ", "\t", "\n", "\r", "\r\n", " \n ", "\n\n", "\t\t"]
 ASTRAL = ["\U0001F600", "\U00010000", "\U0010FFFF", "\U0001D11E", "\U00020000"]
 BMP = ["\u00e9", "\u4e2d", "\ufeff", "\ufffd", "\ud7ff", "\ue000", "\u0085", "\u2028", "\u00a0",
-       "\u3000", "\u30a2", "_x000D_", "_x005F_", "\u0301"]
+       "\u3000", "\u30a2", "_x000D_", "_x005F_", "\u0301",
+       # characters below U+0100 whose code points, read as bytes, spell well-formed UTF-8 (mojibake
+       # is legal text: a decoder must not "repair" it), and C1 controls (Latin-1, not windows-1252)
+       "\u00c3\u00a9", "\u00c2\u00a3100", "\u00e2\u0082\u00ac", "\u00c3\u00bc", "\u0080", "\u0099", "\u009f"]
+# an ST_Xstring look-alike followed by characters of several bytes (a decoder that measures the
+# seven characters of an escape in bytes must not cut inside one)
+XWIDE = ["_x\u65e5\u672c\u8a9e", "_x\u8ef8\u65b9\u5411", "_xmin \u2264 x", "_x (mm) \u00b10,5", "_x00\u00e9\u00e9_", "_x\U0001F600\U0001F600"]
 # ST_Xstring material: escapes (upper / lower-case digits), the escaped underscore, escapes naming
 # surrogates, near-misses (too few / too many digits, no closing underscore, capital X, a non-hex
 # digit), overlapping candidates, pieces that only become an escape when glued to a neighbour
@@ -80,7 +86,7 @@ def gen_string(rng, xml=True, maxlen=None):
         elif k < 0.91:
             out.append(rng.choice(BMP))
         elif k < 0.96 and xml:
-            out.append(rng.choice(XESC))
+            out.append(rng.choice(XESC) if rng.random() < 0.85 else rng.choice(XWIDE))
         elif xml and k < 0.975:
             out.append("_x%04X_" % rng.randrange(0x10000) if rng.random() < 0.5 else "_x%04x_" % rng.randrange(0x10000))
         else:
